@@ -1703,8 +1703,17 @@ where
             return;
         };
 
-        let props_types = self.extract_props_type(maybe_setup);
-        let emits_types = self.extract_emits_type(maybe_setup);
+        // an option the call already carries is not derived at all: deriving it may import helpers
+        let props_types = if can_inject_define_component_option(call_expr, "props") {
+            self.extract_props_type(maybe_setup)
+        } else {
+            None
+        };
+        let emits_types = if can_inject_define_component_option(call_expr, "emits") {
+            self.extract_emits_type(maybe_setup)
+        } else {
+            None
+        };
         if let Some(prop_types) = props_types {
             inject_define_component_option(call_expr, "props", prop_types);
         }
@@ -1783,6 +1792,38 @@ fn jsx_member_to_expr(jsx_member_expr: &JSXMemberExpr) -> Expr {
     })
 }
 
+fn has_define_component_option(object: &ObjectLit, name: &str) -> bool {
+    object.props.iter().any(|prop| {
+        prop.as_prop()
+            .map(|prop| match &**prop {
+                Prop::KeyValue(KeyValueProp { key, .. })
+                | Prop::Getter(GetterProp { key, .. })
+                | Prop::Method(MethodProp { key, .. }) => match key {
+                    PropName::Ident(ident) => ident.sym == name,
+                    PropName::Str(str) => str.value == name,
+                    _ => false,
+                },
+                Prop::Shorthand(ident) => ident.sym == name,
+                _ => false,
+            })
+            .unwrap_or_default()
+    })
+}
+
+/// whether `inject_define_component_option` would add the option `name` to this call
+fn can_inject_define_component_option(call: &CallExpr, name: &str) -> bool {
+    match call.args.get(1) {
+        Some(ExprOrSpread {
+            spread: Some(..), ..
+        }) => false,
+        Some(ExprOrSpread { expr, .. }) => match &**expr {
+            Expr::Object(object) => !has_define_component_option(object, name),
+            _ => true,
+        },
+        None => !call.args.is_empty(),
+    }
+}
+
 fn inject_define_component_option(call: &mut CallExpr, name: &'static str, value: Expr) {
     #[cfg(feature = "verif-trace")]
     verif::emit(
@@ -1817,21 +1858,7 @@ fn inject_define_component_option(call: &mut CallExpr, name: &'static str, value
 
     match options.map(|options| &mut *options.expr) {
         Some(Expr::Object(object)) => {
-            if !object.props.iter().any(|prop| {
-                prop.as_prop()
-                    .map(|prop| match &**prop {
-                        Prop::KeyValue(KeyValueProp { key, .. })
-                        | Prop::Getter(GetterProp { key, .. })
-                        | Prop::Method(MethodProp { key, .. }) => match key {
-                            PropName::Ident(ident) => ident.sym == name,
-                            PropName::Str(str) => str.value == name,
-                            _ => false,
-                        },
-                        Prop::Shorthand(ident) => ident.sym == name,
-                        _ => false,
-                    })
-                    .unwrap_or_default()
-            }) {
+            if !has_define_component_option(object, name) {
                 let prop = PropOrSpread::Prop(Box::new(Prop::KeyValue(KeyValueProp {
                     key: PropName::Ident(quote_ident!(name)),
                     value: Box::new(value),
